@@ -5,6 +5,7 @@ from __future__ import annotations
 
 import dataclasses
 import datetime as dt
+import time as _t
 import enum
 import inspect
 import json
@@ -131,6 +132,23 @@ class World:
                 for r in op[1]:
                     sb.store_runner_context(self._runner(r))
                 o.register_runner_heartbeats(list(op[1]), bool(op[2]))
+            elif k == "stale":
+                # a runner that has been silent for longer than the dead-runner limit (crashed, or stalled: it may come back):
+                # its record is still stored; the backdating is done below the API
+                rid = op[1]
+                sb.store_runner_context(self._runner(rid))
+                o.register_runner_heartbeats([rid], True)
+                now = dt.datetime.now(dt.UTC)
+                o.record_atomic_service_execution(rid, now - dt.timedelta(seconds=3), now - dt.timedelta(seconds=1))
+                long_ago = _t.time() - 4 * 365 * 86400.0
+                if self.kind == "mem":
+                    o.runner_last_heartbeat[rid] = long_ago
+                else:
+                    from pynenc.util.sqlite_utils import create_sqlite_connection
+
+                    with create_sqlite_connection(o.sqlite_db_path) as conn:
+                        conn.execute(f"UPDATE {o.tables.RUNNER_HEARTBEATS} SET last_heartbeat=? WHERE runner_id=?", (long_ago, rid))
+                        conn.commit()
             elif k == "atomic":
                 now = dt.datetime.now(dt.UTC)
                 o.register_runner_heartbeats([op[1]], True)
@@ -184,7 +202,7 @@ def scripted_histories() -> dict[str, list[list]]:
         ["call", "ident", [BIG]], ["call", "add", [7, 8]], ["call", "keyed", ["k2"]], ["call", "ident", [MID]],
         ["claim", "rA", 3], ["status", 0, "RUNNING", "rA"], ["status", 1, "RUNNING", "rA"], ["finish", 0, "rA", 3],
         ["fail", 1, "rA", "boom"], ["claim", "rB", 1], ["status", 3, "RUNNING", "rB"], ["retry", 3, "rB"],
-        ["incretry", 2], ["heartbeat", ["rA"], True],
+        ["incretry", 2], ["heartbeat", ["rA"], True], ["stale", "rOld"], ["call", "add", [8, 9]], ["claim", "rOld", 1],
     ]
     return {
         "long-queue": [["call", "add", [i, i]] for i in range(7)],
@@ -233,6 +251,8 @@ def random_history(rng, n: int) -> list[list]:
             ops.append(["retry", k, run])
         elif r < 0.79:
             ops.append(["heartbeat", rng.sample(runners, rng.randrange(1, 3)), rng.random() < 0.5])
+        elif r < 0.80:
+            ops.append(["stale", rng.choice(["rOld", "rC"])])
         elif r < 0.81:
             ops.append(["atomic", run])
         elif r < 0.84:
